@@ -479,7 +479,7 @@ class PDA:
         else:
             raise NotImplementedError
         start_state_other = other.start_states
-        if len(start_state_other) == 0:
+        if len(start_state_other) == 0 or self._start_state is None:
             return PDA()
         pda_state_converter = _PDAStateConverter(self._states, other.states)
         start_state_other = list(start_state_other)[0]
